@@ -298,7 +298,7 @@ Definition e_close_position (w : world) (trader vamm : addr) (limit : Z) : res (
   do _ <- require_not_restriction_mode w vamm trader;
   let base_direction := if sgtb (p_size p) szero then AddToAmm else RemoveFromAmm in
   do v <- get_vamm w vamm;
-  do over <- q_is_over_fluctuation_limit v (w_env w) RemoveFromAmm (sval (p_size p));
+  do over <- q_is_over_fluctuation_limit v (w_env w) base_direction (sval (p_size p));
   if over && (e_plr c <? e_dec c) then
     let s := position_to_side (p_size p) in
     do pc1 <- cmul (sval (p_size p)) (e_plr c);
@@ -326,10 +326,7 @@ Definition partial_liquidation (w : world) (vamm trader : addr) (limit : Z) : re
   let upnl := snd np in
   let s := position_to_side (p_size p) in
   let t := mkTmp vamm trader s partial_position_size 0 current_notional 0 upnl szero false in
-  let m := if p_notional p <? current_notional then
-             swap_input_msg vamm (direction_to_side (p_dir p)) (p_notional p) 0 true PARTIAL_LIQUIDATION_ID
-           else
-             swap_output_msg vamm (direction_to_side (p_dir p)) partial_position_size partial_asset_limit PARTIAL_LIQUIDATION_ID in
+  let m := swap_output_msg vamm (direction_to_side (p_dir p)) partial_position_size partial_asset_limit PARTIAL_LIQUIDATION_ID in
   Ok (set_eng w (eng_set_tmp (w_eng w) (Some t)), m).
 
 Definition e_liquidate (w0 : world) (sender vamm trader : addr) (limit : Z) : res (world * list submsg) :=
@@ -582,7 +579,8 @@ Definition liquidate_reply (w : world) (input output : Z) : res (world * list su
   do rb <- (if negb (bad_debt =? 0) then realize_bad_debt w st bad_debt else Ok ([], st, 0));
   let '(msgs0, st1, pre_paid_shortfall) := rb in
   let msgs1 := if negb (margin =? 0) then [execute_transfer (e_ifund c) margin] else [] in
-  do wm <- withdraw w st1 liquidator liquidation_fee pre_paid_shortfall;
+  do wm <- (if negb (liquidation_fee =? 0) then withdraw w st1 liquidator liquidation_fee pre_paid_shortfall
+            else Ok (st1, []));
   let '(st2, msgs2) := wm in
   let e1 := remove_position (w_eng w) vamm trader in
   let e2 := eng_set_liq (eng_set_tmp (eng_set_state e1 st2) None) None in
